@@ -42,4 +42,9 @@ CHECKS.update({
             "Fix 8340a80 repaired the lost retry count / recovery budget of in-progress work; a delayed retry lost by to_dict() and the waiter rehydration defect remain recorded findings.", ENGINE_TECH),
 })
 
+CHECKS.update({
+    "C08": ("6/C08", "Handler layouts {none, wildcard, scoped(owner/other), scoped+wildcard, two scoped, stopping / raising handlers} x max_recoveries 1..3 x re-entering lineages x two concurrent lineages x retries x disable_validation off/on x all schedules; routing vs a reference owner map, entries per lineage vs budget, outcome vs original exception + WorkflowFailedEvent, and both validation settings compared on the same schedule.",
+            "Fix cd45fa6 repaired the empty routing tables under disable_validation=True found by this check.", ENGINE_TECH),
+})
+
 NOT_APPLICABLE = {}
